@@ -185,7 +185,7 @@ package patch
 //@   ensures_local placeholder_receives_the_relocated_code: result1 == nil ==> forall i int :: 0 <= i && i < len(returned(fixRelativeAddr, 0)) ==>
 //@     | textmem[trampoline + uintptr(i)] == returned(fixRelativeAddr, 0)[i]
 // ... followed, unless the whole function was consumed, by a jump to the first instruction that was not copied
-//@   call_requires jmpToOriginFunctionValue jumps_back_to_first_uncopied_instruction: arg0 == trampoline + uintptr(len(fixedData)) && arg1 == origin + uintptr(fixedDataSize)
+//@   call_requires jmpToOriginFunctionValue jumps_back_to_first_uncopied_instruction: arg0 == trampoline + uintptr(len(returned(fixRelativeAddr, 0))) && arg1 == origin + uintptr(returned(fixRelativeAddr, 1))
 //@   ensures_local jump_back_follows: result1 == nil && returned(fixRelativeAddr, 1) < bytecode.func_extent(origin) ==>
 //@     | forall i int :: len(returned(fixRelativeAddr, 0)) <= i && i < len(returned(fixRelativeAddr, 0)) + len(returned(jmpToOriginFunctionValue, 0)) ==>
 //@     |   textmem[trampoline + uintptr(i)] == returned(jmpToOriginFunctionValue, 0)[i - len(returned(fixRelativeAddr, 0))]
@@ -418,6 +418,7 @@ package patch
 //@   ensures table_kept: table_inv()
 //@   ensures error_no_guard: result1 != nil ==> result0 == nil
 //@   ensures guard_ready: result1 == nil ==> result0 != nil && guard_wf(result0) && !result0.applied && has(patches, result0.origin) && patches[result0.origin].guard == result0
+//@   ensures targets_the_address: result1 == nil ==> result0.origin == originPtr
 //@   ensures jump_through_replacement_funcvalue: result1 == nil ==> x86_is_movabs_rdx_jmp(result0.jumpBytes, 1) && x86_movabs_rdx_imm(result0.jumpBytes, 1) == bytecode.funcvalue_word(value_of(replacement))
 //@   ensures gc_anchor: result1 == nil ==> patches[result0.origin].replacementValue == value_of(replacement)
 //@   ensures captured_text: result1 == nil ==> window_is(result0.origin, result0.originBytes)
